@@ -167,6 +167,12 @@ func unpackWith(opts *options, v reflect.Value, with value) Error {
 	ctx := with.Context()
 	meta := with.meta()
 
+	if v.Kind() == reflect.Interface && v.IsNil() {
+		// the target is typed as an interface with an Unpack method and holds
+		// nothing that could receive the setting
+		return raisePathErr(ErrNilValue, meta, "", ctx.path("."))
+	}
+
 	var err error
 	value := v.Interface()
 	switch u := value.(type) {
